@@ -17,6 +17,8 @@ Abstract program (JSON-able dict, so it can be written into replay files as is):
 
 * node ids are list positions; every reference points to a smaller id (ids are *an* abstract
   creation order; realisations are free to create nodes in any order compatible with the dataflow).
+* also: LabelEncoder / Scaler / Binarizer (domain ai.onnx.ml), BitAnd / BitOr / BitXor / BitNot
+  (opset ≥ 18), and — only in `skeleton4_programs` — Gelu, DFT (opset 20; compared with atol 1e-4).
 * `op` ∈ arg, init, Constant, Add, Sub, Mul, Max / Min (variadic), Transpose, Neg, Abs, Identity, Not, Less, Cast, Where, Concat (variadic),
   Clip (inner / trailing optional inputs), ReduceSum (trailing optional input omitted),
   Split (multi-output, optional `split` input), TopK (multi-output), Reshape (to rank 1),
@@ -71,7 +73,12 @@ ONNX_NAME = {
     "Concat": "Concat", "Clip": "Clip", "ReduceSum": "ReduceSum", "Split": "Split", "TopK": "TopK",
     "If": "If", "Loop": "Loop", "Scan": "Scan", "Reshape": "Reshape",
     "Sub": "Sub", "Max": "Max", "Min": "Min", "Transpose": "Transpose",
+    "LabelEncoder": "LabelEncoder", "Scaler": "Scaler", "Binarizer": "Binarizer",
+    "BitAnd": "BitwiseAnd", "BitOr": "BitwiseOr", "BitXor": "BitwiseXor", "BitNot": "BitwiseNot",
+    "Gelu": "Gelu", "DFT": "DFT",
 }
+ML_OPS = ("LabelEncoder", "Scaler", "Binarizer")  # domain ai.onnx.ml
+MIN_OPSET = {"BitAnd": 18, "BitOr": 18, "BitXor": 18, "BitNot": 18, "Gelu": 20, "DFT": 20}
 SUB_ATTRS = {"If": ["then_branch", "else_branch"], "Loop": ["body"], "Scan": ["body"]}
 LAYOUTS = ["C", "T", "F", "strided", "rev", "broadcast"]
 
@@ -125,7 +132,8 @@ def bshape(a, b):
 
 # ----------------------------------------------------------------------------------- generator
 class _Gen:
-    def __init__(self, rng: random.Random, size: int, max_depth: int):
+    def __init__(self, rng: random.Random, size: int, max_depth: int, opset: int = 17):
+        self.opset = opset
         self.rng = rng
         self.size = size
         self.max_depth = max_depth
@@ -232,8 +240,9 @@ class _Gen:
         deep = depth < self.max_depth
         choice = rng.choices(
             ["un", "bin", "less", "cast", "where", "concat", "clip", "rsum", "split", "topk", "const", "flat", "if", "loop", "scan",
-             "maxmin", "transpose"],
-            [14, 22, 6, 8, 7, 7, 8, 5, 6, 5, 6, 5, 10 if deep else 0, 7 if deep else 0, 4 if deep else 0, 5, 4],
+             "maxmin", "transpose", "ml", "bit"],
+            [14, 22, 6, 8, 7, 7, 8, 5, 6, 5, 6, 5, 10 if deep else 0, (7 if self.opset <= 18 else 0) if deep else 0,
+             (4 if self.opset <= 18 else 9) if deep else 0, 5, 4, 3, 5 if self.opset >= 18 else 0],
         )[0]
         if choice == "const":
             self.make_const(rng.choice([ty("i64", [N]), ty("f32", [N]), ty("i64", []), ty("f32", []), ty("bool", [N]),
@@ -250,6 +259,37 @@ class _Gen:
             return
         if choice == "scan":
             self.gen_scan(active, depth)
+            return
+        if choice == "ml":  # operators of the ai.onnx.ml domain
+            kind = rng.choice(ML_OPS)
+            want = "i64" if kind == "LabelEncoder" else "f32"
+            x = self.pick(self.usable(active, lambda u: u[0] == want and not u[2] and concrete(u) and len(u[1]) >= 1))
+            if x is None:
+                return
+            t = self.tyof(x)
+            if kind == "LabelEncoder":
+                keys = rng.sample(range(-4, 5), rng.randint(1, 4))
+                attrs = {"keys": keys, "values": [rng.randint(-9, 9) for _ in keys], "default": rng.randint(-9, 9)}
+            elif kind == "Scaler":
+                attrs = {"offset": rng.randint(-4, 4) / 2.0, "scale": rng.choice([0.5, 1.0, 2.0, -1.0, -2.0])}
+            else:
+                attrs = {"threshold": rng.randint(-4, 4) / 2.0}
+            self.add(kind, [x], attrs=attrs, tys=[t])
+            return
+        if choice == "bit":  # since opset 18
+            a = self.pick(self.usable(active, lambda u: u[0] == "i64"))
+            if a is None:
+                return
+            ta = self.tyof(a)
+            if rng.random() < 0.25:
+                self.add("BitNot", [a], tys=[ta])
+                return
+            cands = [b for b in self.usable(active, lambda u: u[0] == "i64") if bshape(ta, self.tyof(b)) is not None]
+            b = self.pick(cands) if cands and rng.random() < 0.9 else self.make_const(ty("i64", [] if (ta[2] or not concrete(ta)) else rng.choice([ta[1], []])))
+            sh = bshape(ta, self.tyof(b))
+            if sh is None:
+                return
+            self.add(rng.choice(["BitAnd", "BitOr", "BitXor"]), [a, b], tys=[ty("i64", sh[0], sh[1])])
             return
         if choice == "maxmin":  # variadic, 1-3 operands of one type
             x = self.pick(self.usable(active, lambda u: num(u) and not u[2] and concrete(u)))
@@ -361,7 +401,9 @@ class _Gen:
             t = self.tyof(x)
             n = t[1][0]
             k = rng.choice([c for c in (2, 3) if c <= n])
-            if n % k == 0 and rng.random() < 0.5:
+            if self.opset >= 18 and n % k != 0:
+                return  # explicit sizes cannot be written at opset >= 18 (listed finding)
+            if n % k == 0 and (rng.random() < 0.5 or self.opset >= 18):
                 sizes = [n // k] * k
                 self.add("Split", [x, None], attrs={"axis": 0, "outputs": k}, tys=[ty(t[0], [s]) for s in sizes])
             else:
@@ -521,7 +563,7 @@ _Gen.gen_scan = _gen_scan
 
 def gen_program(rng: random.Random, size: int = 20, max_depth: int = 3, opset: int = 17) -> dict:
     """A seeded random, well-typed, leak-free program with about `size` nodes."""
-    g = _Gen(rng, size, max_depth)
+    g = _Gen(rng, size, max_depth, opset)
     kinds = [ty("i64", [N]), ty("f32", [N]), ty("i64", []), ty("bool", []), ty("bool", [N]), ty("f32", []),
              ty("i64", [2, N]), ty("f32", [N, 2])]
     chosen = [kinds[0], kinds[rng.randrange(2)]] + [rng.choice(kinds) for _ in range(rng.randint(0, 3))]
@@ -657,6 +699,24 @@ def typecheck(prog) -> list[str]:
                 cnt = int(np.prod(out[0][1])) if out[0][1] else 1
                 ok = not ins and concrete(out[0]) and not out[0][2] and len(n["attrs"]["value"]) == cnt
                 ok = ok and n["attrs"].get("layout", "C") in LAYOUTS
+            elif op == "LabelEncoder":
+                x = T(ins[0])
+                a_ = n["attrs"]
+                ok = x[0] == "i64" and not x[2] and concrete(x) and same_ty(out[0], x) and len(a_["keys"]) == len(a_["values"]) >= 1 \
+                    and len(set(a_["keys"])) == len(a_["keys"])
+            elif op in ("Scaler", "Binarizer", "Gelu"):
+                x = T(ins[0])
+                ok = x[0] == "f32" and not x[2] and concrete(x) and len(x[1]) >= 1 and same_ty(out[0], x)
+            elif op == "DFT":
+                x = T(ins[0])
+                ok = (x[0] == "f32" and not x[2] and concrete(x) and len(x[1]) >= 3 and x[1][-1] == 2 and same_ty(out[0], x)
+                      and ins[1] is None and ins[2] is None)
+            elif op == "BitNot":
+                ok = T(ins[0])[0] == "i64" and same_ty(out[0], T(ins[0]))
+            elif op in ("BitAnd", "BitOr", "BitXor"):
+                a, b = T(ins[0]), T(ins[1])
+                sh = bshape(a, b)
+                ok = a[0] == b[0] == "i64" and sh is not None and same_ty(out[0], ty("i64", sh[0], sh[1]))
             elif op in ("Max", "Min"):
                 ts = [T(r) for r in ins]
                 ok = 1 <= len(ts) <= 3 and ts[0][0] in NUMERIC and not ts[0][2] and concrete(ts[0]) and all(
@@ -758,6 +818,9 @@ def typecheck(prog) -> list[str]:
         t = T(r)
         if t[2]:
             bad.append(f"output {r} has a loose type")
+    for k, n in enumerate(nodes):
+        if MIN_OPSET.get(n["op"], 0) > prog.get("opset", 17):
+            bad.append(f"node {k} ({n['op']}) needs opset {MIN_OPSET[n['op']]}")
     return bad
 
 
@@ -819,6 +882,32 @@ def eval_numpy(prog, binding: dict[int, np.ndarray]):
                 out = [np.multiply(inp(0), inp(1))]
             elif op == "Sub":
                 out = [np.subtract(inp(0), inp(1))]
+            elif op == "LabelEncoder":
+                a_ = n["attrs"]
+                table = dict(zip(a_["keys"], a_["values"]))
+                x = inp(0)
+                out = [np.array([table.get(int(v), a_["default"]) for v in x.reshape(-1)], dtype=np.int64).reshape(x.shape)]
+            elif op == "Scaler":
+                out = [((inp(0) - np.float32(n["attrs"]["offset"])) * np.float32(n["attrs"]["scale"])).astype(np.float32)]
+            elif op == "Binarizer":
+                out = [(inp(0) > np.float32(n["attrs"]["threshold"])).astype(np.float32)]
+            elif op == "Gelu":
+                import math
+
+                x = inp(0).astype(np.float64)
+                out = [(0.5 * x * (1.0 + np.vectorize(math.erf)(x / math.sqrt(2.0)))).astype(np.float32)]
+            elif op == "DFT":  # complex input [..., n, 2], transform along axis -2
+                x = inp(0).astype(np.float64)
+                z = np.fft.fft(x[..., 0] + 1j * x[..., 1], axis=-1)
+                out = [np.stack([z.real, z.imag], axis=-1).astype(np.float32)]
+            elif op == "BitNot":
+                out = [np.bitwise_not(inp(0))]
+            elif op == "BitAnd":
+                out = [np.bitwise_and(inp(0), inp(1))]
+            elif op == "BitOr":
+                out = [np.bitwise_or(inp(0), inp(1))]
+            elif op == "BitXor":
+                out = [np.bitwise_xor(inp(0), inp(1))]
             elif op in ("Max", "Min"):
                 acc_ = inp(0)
                 for j in range(1, len(n["ins"])):
@@ -1044,6 +1133,7 @@ def realise(prog, rng: random.Random, style: str = "lazy") -> Realised:
         raise HarnessError("no `initializer` constructor found in spox._future / spox._graph")
 
     op = importlib.import_module(f"spox.opset.ai.onnx.v{prog.get('opset', 17)}")
+    ml = importlib.import_module("spox.opset.ai.onnx.ml.v3") if any(n["op"] in ML_OPS for n in prog["nodes"]) else None
     nodes = prog["nodes"]
     dep = formal_deps(prog)
     R = Realised()
@@ -1133,6 +1223,25 @@ def realise(prog, rng: random.Random, style: str = "lazy") -> Realised:
             outs = [op.mul(a[0], a[1])]
         elif o == "Sub":
             outs = [op.sub(a[0], a[1])]
+        elif o == "LabelEncoder":
+            outs = [ml.label_encoder(a[0], keys_int64s=n["attrs"]["keys"], values_int64s=n["attrs"]["values"],
+                                     default_int64=n["attrs"]["default"])]
+        elif o == "Scaler":
+            outs = [ml.scaler(a[0], offset=[n["attrs"]["offset"]], scale=[n["attrs"]["scale"]])]
+        elif o == "Binarizer":
+            outs = [ml.binarizer(a[0], threshold=n["attrs"]["threshold"])]
+        elif o == "Gelu":
+            outs = [op.gelu(a[0])]
+        elif o == "DFT":
+            outs = [op.dft(a[0], a[1], a[2])]
+        elif o == "BitNot":
+            outs = [op.bitwise_not(a[0])]
+        elif o == "BitAnd":
+            outs = [op.bitwise_and(a[0], a[1])]
+        elif o == "BitOr":
+            outs = [op.bitwise_or(a[0], a[1])]
+        elif o == "BitXor":
+            outs = [op.bitwise_xor(a[0], a[1])]
         elif o == "Max":
             outs = [op.max(a)]
         elif o == "Min":
@@ -1392,6 +1501,8 @@ def extract_emission(prog, model):
         if n["op"] not in ONNX_NAME or e.op_type != ONNX_NAME[n["op"]]:
             problem(f"node {e.name}: op_type {e.op_type}, but {where} demands program node {k} ({n['op']})")
             return
+        if (e.domain or "") != ("ai.onnx.ml" if n["op"] in ML_OPS else ""):
+            problem(f"node {e.name}: domain {e.domain!r} for program node {k} ({n['op']})")
         names = list(e.input)
         if len(names) > len(n["ins"]) and any(names[len(n["ins"]):]):
             problem(f"node {e.name}: {len(names)} inputs, program node {k} has {len(n['ins'])}")
@@ -1646,7 +1757,7 @@ def run_reference(model, feeds):
         return "err", f"{type(e).__name__}: {str(e)[:300]}"
 
 
-def same_value(got, want) -> Optional[str]:
+def same_value(got, want, atol: float = 1e-6) -> Optional[str]:
     """None if equal (exact for ints/bools, 1e-5 relative for floats), else a short description."""
     got = np.asarray(got)
     want = np.asarray(want)
@@ -1657,7 +1768,7 @@ def same_value(got, want) -> Optional[str]:
             return None
         return f"shape {got.shape} != {want.shape}"
     if want.dtype == np.float32:
-        if not np.allclose(got, want, rtol=1e-5, atol=1e-6):
+        if not np.allclose(got, want, rtol=1e-5, atol=atol):
             return f"values {got.tolist()} != {want.tolist()}"
     elif not np.array_equal(got, want):
         return f"values {got.tolist()} != {want.tolist()}"
@@ -1918,3 +2029,154 @@ def normal_emission(prog, em, attr_order: bool = False):
          for k, subs in em[1] if not is_init(k)],
         [r[0] for r in em[2]],
     ]
+
+
+def skeleton3_programs(max_i2: int = 2, max_n: int = 1) -> Iterator[tuple[dict, str]]:
+    """Exhaustive family aimed at *owners of bodies that are themselves shared*: a control-flow node
+    `i2 = If(e, then: n + x [or a nested If closing over n], else: x)` whose body closes over the
+    NON-ARGUMENT outer value `n = -x`; `i2`'s output is used in every subset (1 ≤ size ≤ max_i2) and
+    `n` itself in every subset (size ≤ max_n) of the seven graphs
+
+        main ▸ If A { then ▸ If B { then, else },  else ▸ If C { then, else } }
+
+    so the owner `i2` is lifted to an outer scope by a later user at another depth while its bodies'
+    closure values must follow.  Yields (prog, tag)."""
+    places = ["main", "A.then", "A.else", "B.then", "B.else", "C.then", "C.else"]
+    for nested in (False, True):
+        for r in range(1, max_i2 + 1):
+            for ui in itertools.combinations(range(7), r):
+                for q in range(0, max_n + 1):
+                    for un in itertools.combinations(range(7), q):
+                        tag = "i2@" + "+".join(places[u] for u in ui) + " n@" + "+".join(places[u] for u in un)
+                        yield _skeleton3(set(ui), set(un), nested), tag + ("/nested" if nested else "")
+
+
+def _skeleton3(u_i2: set, u_n: set, nested: bool) -> dict:
+    nodes: list[dict] = []
+
+    def add(op, ins=(), subs=(), attrs=None, tys=()):
+        nodes.append({"op": op, "ins": [list(r) if r else None for r in ins], "subs": list(subs), "attrs": dict(attrs or {}), "ty": [list(t) for t in tys]})
+        return len(nodes) - 1
+
+    V = ty("i64", [N])
+    B_ = ty("bool", [])
+    x = add("arg", attrs={"role": "main"}, tys=[V])
+    c = add("arg", attrs={"role": "main"}, tys=[B_])
+    d = add("arg", attrs={"role": "main"}, tys=[B_])
+    e = add("arg", attrs={"role": "main"}, tys=[B_])
+    n = add("Neg", [(x, 0)], tys=[V])
+
+    def iff(cond, t, el):
+        return (add("If", [(cond, 0)], [{"args": [], "res": [list(t)]}, {"args": [], "res": [list(el)]}], tys=[V]), 0)
+
+    nx = (add("Add", [(n, 0), (x, 0)], tys=[V]), 0)
+    inner = iff(c, nx, (n, 0)) if nested else nx
+    i2 = iff(e, inner, (x, 0))
+
+    def use(place, base):
+        if place in u_i2:
+            base = (add("Add", [base, i2], tys=[V]), 0)
+        if place in u_n:
+            base = (add("Mul", [base, (n, 0)], tys=[V]), 0)
+        return base
+
+    b_out = iff(d, use(3, (x, 0)), use(4, (x, 0)))
+    at = use(1, b_out)
+    c_out = iff(d, use(5, (x, 0)), use(6, (x, 0)))
+    ae = use(2, c_out)
+    a_out = iff(c, at, ae)
+    out = use(0, a_out)
+    return {"nodes": nodes, "outputs": [list(out)], "opset": 17}
+
+
+SK4_KINDS = ["LabelEncoder", "Scaler", "Binarizer", "BitNot", "BitXor", "Split18", "Gelu", "DFT"]
+
+
+def skeleton4_programs(pairs: bool = True) -> Iterator[tuple[dict, str]]:
+    """Exhaustive family aimed at *requirements that only a body contributes* (operator-set domain /
+    version): one special operator — an `ai.onnx.ml` operator, a since-18 operator at opset 18
+    (BitwiseNot / BitwiseXor / equal Split), a since-20 operator at opset 20 (Gelu, DFT) — is applied to
+    the value flowing through the nest
+
+        main ▸ If A { then ▸ Loop|Scan L { body ▸ If B { then, else } },  else } ;  then If D { then, else }
+
+    in exactly one (or two, `pairs`) of the eight graphs, everything else being old operators, so the
+    model's `opset_import` is right only if the requirement of that one body reaches the model —
+    whichever body is compiled first or last.  Yields (prog, tag)."""
+    places = ["main", "A.then", "A.else", "L.body", "B.then", "B.else", "D.then", "D.else"]
+    for kind in SK4_KINDS:
+        sets = [(i,) for i in range(8)] + (list(itertools.combinations(range(8), 2)) if pairs else [])
+        for us in sets:
+            yield _skeleton4(kind, set(us)), kind + "@" + "+".join(places[u] for u in us)
+
+
+def _skeleton4(kind: str, uses: set) -> dict:
+    nodes: list[dict] = []
+
+    def add(op, ins=(), subs=(), attrs=None, tys=()):
+        nodes.append({"op": op, "ins": [list(r) if r else None for r in ins], "subs": list(subs), "attrs": dict(attrs or {}), "ty": [list(t) for t in tys]})
+        return len(nodes) - 1
+
+    opset = {"BitNot": 18, "BitXor": 18, "Split18": 18, "Gelu": 20, "DFT": 20}.get(kind, 17)
+    if kind in ("LabelEncoder", "BitNot", "BitXor", "Split18"):
+        T = ty("i64", [N])
+    elif kind == "DFT":
+        T = ty("f32", [1, 2, N, 2])
+    else:
+        T = ty("f32", [N])
+    B_ = ty("bool", [])
+    x = add("arg", attrs={"role": "main"}, tys=[T])
+    c = add("arg", attrs={"role": "main"}, tys=[B_])
+    d = add("arg", attrs={"role": "main"}, tys=[B_])
+    use_loop = opset <= 18
+    if use_loop:
+        n = add("arg", attrs={"role": "main", "range": "trip"}, tys=[ty("i64", [])])
+    else:
+        xs = add("arg", attrs={"role": "main"}, tys=[ty(T[0], [2] + T[1])])
+
+    def special(base):
+        if kind == "LabelEncoder":
+            return (add(kind, [base], attrs={"keys": [0, 1, -2, 3], "values": [5, -1, 7, 2], "default": -3}, tys=[T]), 0)
+        if kind == "Scaler":
+            return (add(kind, [base], attrs={"offset": 0.5, "scale": 2.0}, tys=[T]), 0)
+        if kind == "Binarizer":
+            return (add(kind, [base], attrs={"threshold": 0.5}, tys=[T]), 0)
+        if kind == "BitNot":
+            return (add(kind, [base], tys=[T]), 0)
+        if kind == "BitXor":
+            return (add(kind, [base, (x, 0)], tys=[T]), 0)
+        if kind == "Split18":
+            sp = add("Split", [base, None], attrs={"axis": 0, "outputs": N}, tys=[ty("i64", [1])] * N)
+            return (add("Concat", [(sp, 2), (sp, 0), (sp, 1)], attrs={"axis": 0}, tys=[T]), 0)
+        if kind == "Gelu":
+            return (add(kind, [base], tys=[T]), 0)
+        return (add("DFT", [base, None, None], tys=[T]), 0)
+
+    def use(place, base):
+        return special(base) if place in uses else base
+
+    def iff(cond, t, el):
+        return (add("If", [(cond, 0)], [{"args": [], "res": [list(t)]}, {"args": [], "res": [list(el)]}], tys=[T]), 0)
+
+    if use_loop:
+        it = add("arg", attrs={"role": "formal"}, tys=[ty("i64", [], True)])
+        cn = add("arg", attrs={"role": "formal"}, tys=[ty("bool", [], True)])
+        acc = add("arg", attrs={"role": "formal"}, tys=[T])
+        formals = [it, cn, acc]
+    else:
+        acc = add("arg", attrs={"role": "formal"}, tys=[T])
+        sl = add("arg", attrs={"role": "formal"}, tys=[T])
+        formals = [acc, sl]
+    neg = (add("Neg", [(acc, 0)], tys=[T]), 0)
+    b_out = iff(d, use(4, neg), use(5, (acc, 0)))
+    body_res = use(3, b_out)
+    if use_loop:
+        loop = add("Loop", [(n, 0), None, (x, 0)], [{"args": formals, "res": [[cn, 0], list(body_res)]}], tys=[T])
+    else:
+        body_res = (add("Add", [body_res, (sl, 0)], tys=[T]), 0)
+        loop = add("Scan", [(x, 0), (xs, 0)], [{"args": formals, "res": [list(body_res)]}], attrs={"num_scan_inputs": 1}, tys=[T])
+    a_out = iff(c, use(1, (loop, 0)), use(2, (x, 0)))
+    m = use(0, a_out)
+    negm = (add("Neg", [m], tys=[T]), 0)
+    d_out = iff(d, use(6, m), use(7, negm))
+    return {"nodes": nodes, "outputs": [list(d_out)], "opset": opset}
